@@ -752,6 +752,10 @@ class Executor:
                 for s2, b in self.eval(target.value, st):
                     if type(b).__name__ == "PartialVal":
                         return  # naming metadata of a functools.partial object: no effect on what it computes
+            for s2, b in self.eval(target.value, st):
+                if hasattr(b, "pyvc_setattr"):
+                    b.pyvc_setattr(self, s2, target.attr, value, target)  # an abstract record that tracks its own attribute writes
+                    return
             raise Unsupported("attribute store")
         else:
             raise Unsupported(f"assignment target {type(target).__name__}")
